@@ -5,6 +5,7 @@ from scipy.sparse import issparse
 
 from skglm.solvers.base import BaseSolver
 from skglm.utils.anderson import AndersonAcceleration
+from skglm.utils import _verif
 
 
 class GramCD(BaseSolver):
@@ -100,6 +101,9 @@ class GramCD(BaseSolver):
         for t in range(self.max_iter):
             # check convergences
             stop_crit = np.max(opt)
+            if _verif.ON:
+                _verif.emit("outer", solver="GramCD", t=t, stop_crit=stop_crit, w=w,
+                            grad=grad)
             if self.verbose:
                 p_obj = (0.5 * w @ (scaled_gram @ w) - scaled_Xty @ w +
                          scaled_y_norm2 + penalty.value(w))
@@ -126,6 +130,10 @@ class GramCD(BaseSolver):
                                  scaled_Xty @ w_acc + penalty.value(w_acc))
                     p_obj = (0.5 * w @ (scaled_gram @ w) - scaled_Xty @ w
                              + penalty.value(w))
+                    if _verif.ON:
+                        _verif.emit("extrap", solver="GramCD", t=t, epoch=t, w=w,
+                                    w_acc=w_acc, grad=grad, grad_acc=grad_acc,
+                                    p_obj=p_obj, p_obj_acc=p_obj_acc)
                     if p_obj_acc < p_obj:
                         w[:] = w_acc
                         grad[:] = grad_acc
@@ -134,6 +142,12 @@ class GramCD(BaseSolver):
             p_obj = (0.5 * w @ (scaled_gram @ w) - scaled_Xty @ w + scaled_y_norm2 +
                      penalty.value(w))
             p_objs_out.append(p_obj)
+            if _verif.ON:
+                _verif.emit("outer_end", solver="GramCD", t=t, p_obj=p_obj, w=w,
+                            grad=grad)
+        if _verif.ON:
+            _verif.emit("return", solver="GramCD", stop_crit=stop_crit, w=w,
+                        n_obj=len(p_objs_out))
         return w, np.array(p_objs_out), stop_crit
 
     def custom_checks(self, X, y, datafit, penalty):
